@@ -354,7 +354,7 @@ def evaluate__log(self: XPathFunction, context: ta.ContextType = None) -> ta.One
     arg: ta.NumericType | None = self.get_argument(self.context or context, cls=NumericProxy)
     if arg is None:
         return []
-    return float('-inf') if not arg else math.nan if arg <= -1 else math.log(arg)
+    return float('-inf') if not arg else math.nan if arg < 0 else math.log(arg)
 
 
 @method(function('log10', prefix='math', nargs=1, sequence_types=('xs:double?', 'xs:double?')))
@@ -362,7 +362,7 @@ def evaluate__log10(self: XPathFunction, context: ta.ContextType = None) -> ta.O
     arg: ta.NumericType | None = self.get_argument(self.context or context, cls=NumericProxy)
     if arg is None:
         return []
-    return float('-inf') if not arg else math.nan if arg <= -1 else math.log10(arg)
+    return float('-inf') if not arg else math.nan if arg < 0 else math.log10(arg)
 
 
 @method(function('pow', prefix='math', nargs=2,
